@@ -68,7 +68,7 @@ theorem check_valid_path_eq_spec (v : Verdict) (path : CStr) :
     said yes) minus one leading slash, with "" read as ".". -/
 theorem check_valid_path_sound (callerOk : Bool) (v : Verdict) (path r : CStr)
     (h : checkValidPath callerOk v path = some r) :
-    callerOk = true ∧ v ≠ .deny ∧
+    callerOk = true ∧ v ≠ .deny ∧ v.raises = false ∧
     r.head? ≠ some '/' ∧ (∀ c ∈ comps r, c ≠ dotdot) ∧
     (∃ a, specAnswer v path = some a ∧ r = (if stripOneSlash a = [] then dot else stripOneSlash a)) := by
   cases callerOk with
@@ -86,9 +86,23 @@ theorem check_valid_path_sound (callerOk : Bool) (v : Verdict) (path r : CStr)
         subst h
         rw [← legalPath_eq_spec] at hl
         obtain ⟨h1, h2⟩ := legal_path_secure _ hl
-        refine ⟨rfl, ?_, h1, h2, a, rfl, hq.symm⟩
-        intro hv; subst hv; simp [specAnswer] at ha
+        refine ⟨rfl, ?_, ?_, h1, h2, a, rfl, hq.symm⟩
+        · intro hv; subst hv; simp [specAnswer] at ha
+        · cases v <;> simp [Verdict.raises, specAnswer] at ha ⊢
       · simp [hl] at h
+
+/-- FAIL CLOSED: when the master function raises an error no path comes back (and, in the efun models, control
+    does not come back either: `Sys.ask` / `renameEfun`) -/
+theorem check_valid_path_error_fails_closed (callerOk : Bool) (v : Verdict) (path : CStr)
+    (h : v.raises = true) : checkValidPath callerOk v path = none := by
+  cases v <;> simp [Verdict.raises] at h
+  cases callerOk <;> rfl
+
+/-- as coded (made visible): a master that does not define valid_read / valid_write, or returns anything but the
+    integer 0 or a string (negative int, float — even 0.0 —, array, object), approves the ORIGINAL path -/
+theorem check_valid_path_absent_or_odd_approves (path : CStr) (w : String) :
+    checkValidPath true .absent path = checkValidPath true .ok path ∧
+    checkValidPath true (.odd w) path = checkValidPath true .ok path := ⟨rfl, rfl⟩
 
 theorem check_valid_path_denied (callerOk : Bool) (path : CStr) :
     checkValidPath callerOk .deny path = none := by
@@ -234,7 +248,7 @@ theorem judge_cvp_model (v : Verdict) (s : CStr) : judgeEv [.cvp v s (checkValid
   | some q =>
     have hs := check_valid_path_sound true v s q h
     have hsafe : safe q = true := by
-      simp [safe, absolute, hs.2.2.1]; exact hs.2.2.2.1
+      simp [safe, absolute, hs.2.2.2.1]; exact hs.2.2.2.2.1
     rw [check_valid_path_eq_spec] at h
     simp [judgeEv, judgeStep, h, hsafe]
 
